@@ -74,7 +74,12 @@ sb_error_t sb_light_program_init_from_binary_file_in_memory(
 
 sb_error_t sb_i_light_program_init_from_bytes(sb_light_program_t* program, uint8_t* buf, size_t nbytes, sb_bool_t owned)
 {
-    if (owned) {
+    if (owned && nbytes == 0) {
+        /* an empty block is an empty light program; there is nothing to keep
+         * from the memory block that we were asked to take ownership of */
+        SB_CHECK(sb_light_program_init_empty(program));
+        sb_free(buf);
+    } else if (owned) {
         SB_CHECK(sb_buffer_init_from_bytes(&program->buffer, buf, nbytes));
     } else {
         sb_buffer_init_view(&program->buffer, buf, nbytes);
